@@ -39,6 +39,8 @@ def make_converter(spec_, delimiter=":", strict=True):
 
 
 def describe_converter(c):
+    if not hasattr(c, "records") or not hasattr(c, "delimiter"):
+        return {"blank": True, "delimiter": ":", "records": []}
     return {
         "delimiter": c.delimiter,
         "records": [
